@@ -389,7 +389,7 @@ Call(c) ==
 Done == phase # "pick" /\ (st # "run" \/ ~Stream) /\ UNCHANGED vars
 
 Next ==
-  \/ \E tail \in Tails : Pick(tail)
+  \/ phase = "pick" /\ \E tail \in Tails : Pick(tail)
   \/ \E k \in Chunks, e \in BOOLEAN : Feed(k, e)
   \/ \E c \in Caps \cup {grow} : c > 0 /\ Call(c)
   \/ Done
